@@ -100,6 +100,37 @@ PROPS = {
         mc=[READER_MC], stages=[READER_STAGE],
         rule="a run = one history of reader calls on a fresh reader; distinct = (type, equal sizes, with index, complete, history)",
     ),
+    "C06": dict(
+        level="model_checking",
+        level_text="TLC generates (TLA+ encoder) every file whose records have any sequence of at most two of the 14 type codes and "
+                   "every (a, a, b); the real library reads each as each of the 13 concrete types (read_as, typed iteration) and "
+                   "generically (read + convert_shapes_to_vec_of); TLC validates each result against the typed-read rule of the "
+                   "specification (first record of another type => MismatchShapeType{requested S, actual T}, otherwise equal to the "
+                   "generic result), the four type identities per record and the concrete->generic->concrete round trip",
+        level_note="trusted: TLC and the TLA+ encoder; one small shape per type (the property is about types, not geometry)",
+        technique="behaviour replay: TLC-generated mixed-type files read by the real code, results validated by TLC",
+        mc=[dict(module="MC_Types", quick="MC_Types.cfg", workers=2)],
+        stages=[dict(cmd="types", spec="Trace_Types", gen="Gen_Types", quick=dict(chunks=8), thorough=dict(chunks=8))],
+        rule="a case = (file of record types ts, requested type S): all 13 S x 407 type sequences; exhaustive over that scope",
+        exhaustive=True,
+    ),
+    "C19": dict(
+        level="exploration",
+        level_text="all 2^32 codes are pushed through the real ShapeType::from (16 threads); the maximal runs of equal validity it "
+                   "finds are validated by TLC against the ESRI table (they must tile int32 and be the 14 singletons and the gaps); "
+                   "predicates, names and re-encoding for the 14 types; header and record routes: individually validated for every "
+                   "code +-2, powers of two +-1 and i32 extremes, in bulk (seeded sample; thorough: every 32-bit value through "
+                   "Header::read_from) for agreement with ShapeType::from and for carrying the value in the error; the table and "
+                   "its interval tiling are model-checked by TLC (MC_Types)",
+        level_note="exhaustive over the 32-bit domain for ShapeType::from; TLC's integers are 32-bit so the enumeration is the "
+                   "harness's and TLC judges the run-length summary",
+        technique="exhaustive enumeration by the harness, run-length summary validated by TLC against the TLA+ table; TLC model check of the table",
+        mc=[dict(module="MC_Types", quick="MC_Types.cfg", workers=2)],
+        stages=[dict(cmd="types", spec="Trace_Types", quick=dict(samples=200000), thorough=dict(samples=2000000, fullroutes=1))],
+        rule="evaluations = 2^32 codes through ShapeType::from plus the sampled header/record routes; distinct_nontrivial counts "
+             "the same values (each a distinct input)",
+        exhaustive=True,
+    ),
     "C09": dict(
         level="model_checking",
         level_text="TLC explores every history over {write a, write b, write x, finalize} up to the bound on the writer "
